@@ -69,7 +69,9 @@ def states(tier, seed):
         if guess == "allstate" and tier == "quick" and (lin != "direct" or c != cfgs[0]):
             continue
         st.append(dict(part="path", cfg=c, nl=nl, lin=lin, guess=guess, order=list(order), fam=fam))
-    for c in cfgs if tier == "quick" else list(CONFIGS):
+    # parts fixed / stiff rebuild the discipline chain (resp. the rigid limit) inside the harness without point masses or rotation
+    plain = [c for c in CONFIGS if not CONFIGS[c].get("pm") and not CONFIGS[c].get("rot")]
+    for c in cfgs if tier == "quick" else plain:
         for k in range(3):
             st.append(dict(part="fixed", cfg=c, k=k, fam=fam))
     for c, npts, rev in itertools.product((cfgs[:1] if tier == "quick" else cfgs[:3]) + ["tube_sym_pm"], [2, 3], [False, True]):
@@ -82,7 +84,8 @@ def states(tier, seed):
         st.append(dict(part="fixed", cfg="tube_right_nx3", k=k, fam=fam))
     st.append(dict(part="multi", cfg="tube_right_nx3", npts=2, rev=False, fam=fam))
     for c in cfgs:
-        st.append(dict(part="stiff", cfg=c, fam=fam))
+        if c in plain:
+            st.append(dict(part="stiff", cfg=c, fam=fam))
     return st, 0
 
 
@@ -143,12 +146,12 @@ def part_path(s):
             # a deliberately bad initial guess: ten times the current displacement state (or a non-zero one at the start)
             d = p["AS_point_0.coupled.wing.disp"]
             p.set_val("AS_point_0.coupled.wing.disp", 10.0 * d + (0.01 if step == 0 else 0.0))
-        elif s["guess"] == "allstate":
-            if step == 0:
-                p.run_model()  # something to restart from
-            vec = p.model.AS_point_0.coupled._outputs
-            vec.set_val(0.8 * vec.asarray())
         try:
+            if s["guess"] == "allstate":
+                if step == 0:
+                    p.run_model()  # something to restart from
+                vec = p.model.AS_point_0.coupled._outputs
+                vec.set_val(0.8 * vec.asarray())
             p.run_model()
         except om.AnalysisError as e:
             return dict(viol=viol, nontrivial=False, digest="nonconv:%s/%s" % (s["nl"], s["lin"]), transitions=step + 1, validated=val, inadmissible=True, counters=dict(nonconvergent=1))
